@@ -600,6 +600,28 @@ def run(ctx):
         vps = [list(reversed(range(nv)))] + [rand_perm(rng, nv) for _ in range(2 if quick else 5)]
         calc_stage(ctx, rd, "subsampled_%s" % interp, ds, small_settings(interp=interp, order=3),
                    [("volume-order", dict(base, vperm=vp)) for vp in vps], guard_cases=guard_cases)
+    # probe: two branches of a q-point coincide at the FIRST listed volume only (a crossing / an accidental equality at
+    # file precision) and are listed next to each other; swapping exactly those two must change nothing
+    ds = synth.make_dataset(rng, nv=6, nq=3, na=2, spectrum="curved")
+    base = identity_spec(ds)
+    pairs = []
+    for qi in range(3):
+        k = rng.randrange(4, ds["qha"]["np"])
+        fr0 = ds["qha"]["volumes"][0]["q_points"][qi][1]
+        fr0[k] = fr0[k - 1]
+        pairs.append(k)
+    swaps = []
+    for qi, k in enumerate(pairs):
+        mp = [list(range(ds["qha"]["np"])) for _ in range(3)]
+        mp[qi][k - 1], mp[qi][k] = k, k - 1
+        swaps.append(("mode-order", dict(base, mperm=mp)))
+    mp = [list(range(ds["qha"]["np"])) for _ in range(3)]
+    for qi, k in enumerate(pairs):
+        mp[qi][k - 1], mp[qi][k] = k, k - 1
+    swaps.append(("mode-order", dict(base, mperm=mp)))
+    calc_stage(ctx, rd, "coincident_branches", ds, small_settings(interp="lsq_poly", order=3), swaps,
+               guard_cases=guard_cases)
+    ctx.count("probe: branches coinciding at the first listed volume, swapped")
     # probe: nearly (not exactly) equal axial strain fractions e2, e3
     ds = degenerate_lattice_dataset(rng)
     base = identity_spec(ds)
